@@ -666,6 +666,10 @@ func (r *runningStep) closedEarly(stageToMarkUnresolvable StageID, priorStageFai
 
 	err := fmt.Errorf("step foreach %s closed due to workflow termination", r.runID)
 	r.markStageFailures(stageToMarkUnresolvable, err)
+	if stageToMarkUnresolvable == StageIDExecute {
+		// Closed before the enabling input was seen: markStageFailures starts after the disabled stage.
+		r.stageChangeHandler.OnStepStageFailure(r, string(StageIDDisabled), &r.wg, err)
+	}
 }
 
 func (r *runningStep) transitionToDisabled() {
@@ -774,6 +778,8 @@ func (r *runningStep) markStageFailures(firstStage StageID, err error) {
 		fallthrough
 	case StageIDOutputs:
 		r.stageChangeHandler.OnStepStageFailure(r, string(StageIDOutputs), &r.wg, err)
+		// Without the outputs there are no item failures to report either.
+		r.stageChangeHandler.OnStepStageFailure(r, string(StageIDFailed), &r.wg, err)
 	default:
 		panic("unknown StageID " + firstStage)
 	}
@@ -855,6 +861,9 @@ func (r *runningStep) processInput(input executeInput) {
 	previousStage = string(r.currentStage)
 	r.lock.Unlock()
 	r.stageChangeHandler.OnStepComplete(r, previousStage, &outputID, &outputData, &r.wg)
+	// The step produced its result: it can no longer be closed early. Without this, anything that
+	// depends on the closed stage would wait until every other step ends.
+	r.markNotClosable(fmt.Errorf("step foreach %s finished", r.runID))
 }
 
 // returns true if there is an error.
